@@ -9,12 +9,16 @@ Open Scope N_scope.
 Theorem c08_send_noop_when_not_connected : forall p s, connected s = false -> send_packet p s = (tt, s, []).
 Proof. exact send_not_connected. Qed.
 
-(* disconnect() on a client that is not connected emits nothing (no event, no CLOSE, no socket closed), leaves it disconnected
-   with no sid, and touches neither the queue nor the tasks nor the sockets *)
+(* disconnect() on a client that is not connected emits nothing (no event, no CLOSE, no socket closed) and touches neither the
+   queue nor the tasks nor the sockets: a disconnected client stays disconnected with no sid, and while another disconnect() is
+   in progress nothing changes at all *)
 Theorem c08_disconnect_noop_when_not_connected : forall me abort r s, connected s = false ->
   let x := disconnect_core me abort r s in
-  outof x = [] /\ state (stof x) = Disconnected /\ sid_set (stof x) = false /\ queue (stof x) = queue s /\ tasks (stof x) = tasks s /\
-  conns (stof x) = conns s.
+  outof x = [] /\ queue (stof x) = queue s /\ tasks (stof x) = tasks s /\ conns (stof x) = conns s /\
+  match state s with
+  | Disconnecting => stof x = s
+  | _ => state (stof x) = Disconnected /\ sid_set (stof x) = false
+  end.
 Proof. exact disconnect_not_connected. Qed.
 
 (* once the connection has ended nothing more of a payload is handled: no event, no PONG, no state change *)
